@@ -72,6 +72,22 @@ class ZAlg:
     def all_le(self, x, vs):
         return z3.And([x <= y for y in vs])
 
+    def median(self, ts):
+        """median as a z3 term: fresh variable constrained by rank conditions (mean of the two middle values for an even count)"""
+        n = len(ts)
+        m = core.ENG.fresh_real('median')
+        cnt_le = lambda a: z3.Sum([z3.If(t <= a, 1, 0) for t in ts])
+        cnt_ge = lambda a: z3.Sum([z3.If(t >= a, 1, 0) for t in ts])
+        if n % 2 == 1:
+            h = (n + 1) // 2
+            c = z3.Or([z3.And(m == a, cnt_le(a) >= h, cnt_ge(a) >= h) for a in ts])
+        else:
+            h = n // 2
+            c = z3.Or([z3.And(a <= b, cnt_le(a) >= h, cnt_ge(a) >= h + 1, cnt_le(b) >= h + 1, cnt_ge(b) >= h, 2 * m == a + b)
+                       for i, a in enumerate(ts) for j, b in enumerate(ts) if i != j])
+        core.ENG.assume(c, check=False)      # defines m uniquely (the median always exists)
+        return m
+
     def all_ge(self, x, vs):
         return z3.And([x >= y for y in vs])
 
@@ -124,6 +140,11 @@ class FAlg:
     def all_le(self, x, vs):
         return all(x <= y for y in vs)
 
+    def median(self, ts):
+        s = sorted(ts)
+        n = len(s)
+        return s[n // 2] if n % 2 else 0.5 * (s[n // 2 - 1] + s[n // 2])
+
     def all_ge(self, x, vs):
         return all(x >= y for y in vs)
 
@@ -133,7 +154,7 @@ class FAlg:
 PREC = {'<': 1, '>': 1, '+': 2, '-': 2, '*': 3, '/': 3, '^': 4}
 POINTWISE = ('ABS', 'DIODE', 'SQRT', 'SIGN')
 SERIES = ('D', 'I', 'D2')
-AGGREGATES = ('SUM', 'AVG', 'MIN', 'MAX', 'MSE', 'VAR', 'ARGMIN', 'ARGMAX')
+AGGREGATES = ('SUM', 'AVG', 'MIN', 'MAX', 'MSE', 'VAR', 'ARGMIN', 'ARGMAX', 'MEDIAN', 'MAD', 'STD', 'RMSE')
 FUNCS = POINTWISE + SERIES + AGGREGATES
 
 
@@ -346,6 +367,24 @@ def _fun(name, v, n, A):
         for x in vals[1:]:
             q = q + (x - m) * (x - m)
         r = q / c
+    elif name in ('STD', 'RMSE'):
+        if name == 'RMSE':
+            q = vals[0] * vals[0]
+            for x in vals[1:]:
+                q = q + x * x
+            r = A.sqrt(q / c)
+        else:
+            m = s / c
+            q = (vals[0] - m) * (vals[0] - m)
+            for x in vals[1:]:
+                q = q + (x - m) * (x - m)
+            r = A.sqrt(q / c)
+    elif name in ('MEDIAN', 'MAD'):
+        # documented: median(x) / median(|x|); mean of the two middle values for an even count.  MEDIAN only on NaN-free vectors.
+        if name == 'MEDIAN' and len(vals) != len(v):
+            return [_undef(A)] * n
+        ws = vals if name == 'MEDIAN' else [A.ite(A.lt_c(x, 0), -x, x) for x in vals]
+        r = A.median(ws)
     elif name in ('ARGMIN', 'ARGMAX'):
         # documented: the smallest index attaining the extremum (only defined here on NaN-free vectors)
         if len(vals) != len(v):
